@@ -1482,3 +1482,312 @@ Theorem C11_same_removals_proof : forall c ops n, config_ok c -> future_kind (ck
   results_from c (fst (reload c s)) (repeat (remove_op_of (ckind c)) n) =
   results_from c s (repeat (remove_op_of (ckind c)) n).
 Proof. intros c ops n Hc K s. apply (C11_same_future_proof c ops _ Hc K). Qed.
+
+(* ================================================================================================ *)
+(* 9. C12                                                                                           *)
+(* ================================================================================================ *)
+(* ---------- null, [] and {} ---------- *)
+Lemma load_array_nil : forall c, load_array c [] = init c.
+Proof.
+  intros c. unfold load_array, add_values, init.
+  destruct (ckind c); try reflexivity; destruct (_ <? _); reflexivity.
+Qed.
+
+Lemma put_entries_nil : forall c s, put_entries c [] s = s.
+Proof. intros c s. destruct s; reflexivity. Qed.
+
+Lemma json_entries_nil : forall c, MM.json_entries c [] = [].
+Proof. intros c. unfold MM.json_entries. destruct (ckind c); reflexivity. Qed.
+
+Theorem C12_null_empty_proof : forall c s, s <> StCrash ->
+  from_json c DNull s = (init c, true) /\
+  (is_kv (ckind c) = false -> from_json c (DArr []) s = (init c, true)) /\
+  (is_kv (ckind c) = true -> from_json c (DObj []) s = (init c, true)).
+Proof.
+  intros c s Hs. rewrite !(from_json_body_eq c _ s Hs). unfold from_json_body.
+  destruct (is_kv (ckind c)).
+  - split; [reflexivity|]. split; [discriminate|]. intros _.
+    rewrite json_entries_nil, put_entries_nil. reflexivity.
+  - rewrite load_array_nil. split; [reflexivity|]. split; [reflexivity|discriminate].
+Qed.
+
+(* ---------- the loaded state is reachable without FromJSON ---------- *)
+Definition is_from_json (o : op) : bool := match o with FromJSON _ => true | _ => false end.
+
+Definition put_ops (es : list (Z * Z)) : list op := map (fun e => Put (fst e) (snd e)) es.
+
+(* the insert operations that rebuild the loaded state from the empty container *)
+Definition load_ops (c : config) (d : decoded) : list op :=
+  match d with
+  | DArr vs =>
+    match ckind c with
+    | ArrayList | SinglyLinkedList | DoublyLinkedList | HashSet | TreeSet | LinkedHashSet => [Add vs]
+    | ArrayStack => map Push vs
+    | LinkedListStack => map Push (rev vs)
+    | ArrayQueue | LinkedListQueue | CircularBuffer => map Enqueue vs
+    | BinaryHeap => [PushAll vs]
+    | PriorityQueue => map Enqueue (Heap.heapify_from (kc c) vs (length vs / 2 + 1))
+    | _ => []
+    end
+  | DObj kvs => put_ops (MM.json_entries c kvs)
+  | _ => []
+  end.
+
+Lemma load_ops_no_from_json : forall c d o, In o (load_ops c d) -> is_from_json o = false.
+Proof.
+  intros c d o H. unfold load_ops, put_ops in H. destruct d; try contradiction.
+  - destruct (ckind c); try contradiction;
+      try (destruct H as [<-|[]]; reflexivity);
+      try (apply in_map_iff in H; destruct H as (x & <- & _); reflexivity).
+  - apply in_map_iff in H. destruct H as (x & <- & _). reflexivity.
+Qed.
+
+Lemma run_from_crash : forall c ops, run_from c StCrash ops = StCrash.
+Proof. intros c ops. induction ops as [|o ops IH]; [reflexivity|]. rewrite run_from_cons. exact IH. Qed.
+
+(* loading the members one Put at a time *)
+Lemma put_entries_run : forall c, is_kv (ckind c) = true -> forall es s,
+  put_entries c es s = run_from c s (put_ops es).
+Proof.
+  intros c Hkv. induction es as [|[k v] es IH]; intros s; [apply put_entries_nil|].
+  unfold put_ops. cbn [map fst snd]. rewrite run_from_cons. fold (put_ops es). rewrite <- IH.
+  destruct s; try reflexivity; cbn [put_entries step fst].
+  - (* StRB *)
+    destruct (ckind c) eqn:K; try discriminate Hkv; cbn [rbs_puts];
+      (destruct (rbs_put (kc c) k v (t, n)) as [[t' n']|]; reflexivity).
+  - (* StAVL *)
+    cbn [avl_puts]. destruct (avl_put (kc c) k v t n) as [[t' n']|]; reflexivity.
+  - (* StBT *)
+    cbn [bt_puts]. destruct (bt_put (bt_m c) (kc c) k v r n) as [[r' n']|]; reflexivity.
+  - (* StLMap *)
+    cbn [fold_left fst snd]. destruct (lmap_put k v (tbl, ord)) as [t' o']. reflexivity.
+  - (* StTBidi *)
+    cbn [tbidi_puts]. destruct (tbidi_put (kc c) (vc c) k v (f, fn, (i, inn))) as [[[f' fn'] [i' inn']]|]; reflexivity.
+Qed.
+
+(* pushing the elements of a valid heap array in array order rebuilds that array: no element moves *)
+Lemma pushes_in_order : forall cmp suf pre, HP.heap_ok cmp (pre ++ suf) ->
+  fold_left (fun h v => Heap.push cmp [v] h) suf pre = pre ++ suf.
+Proof.
+  intros cmp. induction suf as [|v suf IH]; intros pre Hok; [rewrite app_nil_r; reflexivity|].
+  cbn [fold_left].
+  assert (E : Heap.push cmp [v] pre = pre ++ [v]).
+  { unfold Heap.push. cbv zeta. rewrite app_length. cbn [length].
+    replace (length pre + 1 - 1)%nat with (length pre) by lia.
+    replace (length pre + 1)%nat with (S (length pre)) by lia.
+    rewrite HP.bubble_up_S. destruct (Nat.ltb_spec 0 (length pre)) as [Hpos|_]; [|reflexivity].
+    assert (G : Heap.gt cmp (get (pre ++ [v]) ((length pre - 1) / 2)) (get (pre ++ [v]) (length pre)) = false).
+    { apply HP.gt_false.
+      assert (Hlen : (length pre < length (pre ++ v :: suf))%nat) by (rewrite app_length; cbn [length]; lia).
+      pose proof (Hok (length pre) (conj Hpos Hlen)) as H.
+      replace (pre ++ v :: suf) with ((pre ++ [v]) ++ suf) in H by (rewrite <- app_assoc; reflexivity).
+      assert (Hd : ((length pre - 1) / 2 < length pre)%nat).
+      { apply Nat.div_lt_upper_bound; lia. }
+      assert (Hl1 : (length (pre ++ [v]) = length pre + 1)%nat) by (rewrite app_length; reflexivity).
+      rewrite (HP.get_app_l (pre ++ [v]) suf ((length pre - 1) / 2)) in H by lia.
+      rewrite (HP.get_app_l (pre ++ [v]) suf (length pre)) in H by lia. exact H. }
+    rewrite G. reflexivity. }
+  rewrite E. rewrite IH; rewrite <- app_assoc; [reflexivity|exact Hok].
+Qed.
+
+(* one-step facts, by kind *)
+Lemma step_push_astack : forall c l v, ckind c = ArrayStack -> fst (fst (step c (StSeq l) (Push v))) = StSeq (l ++ [v]).
+Proof. intros c l v K. unfold step. rewrite K. reflexivity. Qed.
+Lemma step_push_lstack : forall c l v, ckind c = LinkedListStack -> fst (fst (step c (StSeq l) (Push v))) = StSeq (v :: l).
+Proof. intros c l v K. unfold step. rewrite K. reflexivity. Qed.
+Lemma step_enq_aq : forall c l v, ckind c = ArrayQueue -> fst (fst (step c (StSeq l) (Enqueue v))) = StSeq (l ++ [v]).
+Proof. intros c l v K. unfold step. rewrite K. reflexivity. Qed.
+Lemma step_enq_lq : forall c l v, ckind c = LinkedListQueue -> fst (fst (step c (StSeq l) (Enqueue v))) = StSeq (l ++ [v]).
+Proof. intros c l v K. unfold step. rewrite K. reflexivity. Qed.
+Lemma step_enq_ring : forall c r v, ckind c = CircularBuffer -> fst (fst (step c (StRing r) (Enqueue v))) = StRing (Ring.renq v r).
+Proof. intros c r v K. unfold step. rewrite K. reflexivity. Qed.
+Lemma step_enq_pq : forall c l v, ckind c = PriorityQueue ->
+  fst (fst (step c (StHeap l) (Enqueue v))) = StHeap (Heap.push (kc c) [v] l).
+Proof. intros c l v K. unfold step. rewrite K. reflexivity. Qed.
+
+Lemma run_app_ops : forall c (f : Z -> op) (g : list Z -> Z -> list Z) (mk : list Z -> state),
+  (forall l v, fst (fst (step c (mk l) (f v))) = mk (g l v)) ->
+  forall vs l, run_from c (mk l) (map f vs) = mk (fold_left g vs l).
+Proof.
+  intros c f g mk H. induction vs as [|v vs IH]; intros l; [reflexivity|].
+  cbn [map fold_left]. rewrite run_from_cons, H. apply IH.
+Qed.
+
+Lemma fold_snoc : forall vs l, fold_left (fun (a : list Z) v => a ++ [v]) vs l = l ++ vs.
+Proof.
+  induction vs as [|v vs IH]; intros l; cbn [fold_left]; [rewrite app_nil_r; reflexivity|].
+  rewrite IH, <- app_assoc. reflexivity.
+Qed.
+
+Lemma fold_cons_rev : forall ws l, fold_left (fun (a : list Z) v => v :: a) ws l = rev ws ++ l.
+Proof.
+  induction ws as [|w ws IH]; intros l; cbn [fold_left rev]; [reflexivity|].
+  rewrite IH, <- app_assoc. reflexivity.
+Qed.
+
+(* C12: a successful load from the empty container is the run of the insert operations [load_ops] *)
+Lemma load_is_run : forall c d, config_ok c -> accepts c d = true ->
+  fst (from_json c d (init c)) = run c (load_ops c d).
+Proof.
+  intros c d Hc Ha. pose proof (init_not_crash c Hc) as Hi.
+  rewrite (from_json_body_eq c d _ Hi). unfold from_json_body, accepts in *.
+  destruct (is_kv (ckind c)) eqn:Hkv.
+  - destruct d; try discriminate Ha; cbn [fst load_ops]; [reflexivity|].
+    unfold run. apply put_entries_run. exact Hkv.
+  - destruct d as [| |vs|kvs]; try discriminate Ha; cbn [fst load_ops]; [rewrite load_array_nil; reflexivity|].
+    unfold run, load_array. destruct (ckind c) eqn:K; try discriminate Hkv.
+    + (* ArrayList *)
+      unfold init. rewrite K. unfold run_from. cbn [fold_left]. unfold step. rewrite K. cbn [fst add_values].
+      rewrite K. reflexivity.
+    + (* SinglyLinkedList *) unfold run_from. cbn [fold_left]. unfold init, step. rewrite K. reflexivity.
+    + (* DoublyLinkedList *) unfold run_from. cbn [fold_left]. unfold init, step. rewrite K. reflexivity.
+    + (* HashSet *) unfold run_from. cbn [fold_left]. unfold init, step. rewrite K. reflexivity.
+    + (* TreeSet *) unfold run_from. cbn [fold_left]. unfold init, step. rewrite K. reflexivity.
+    + (* LinkedHashSet *) unfold run_from. cbn [fold_left]. unfold init, step. rewrite K. reflexivity.
+    + (* ArrayStack *)
+      unfold init. rewrite K.
+      rewrite (run_app_ops c Push (fun a v => a ++ [v]) StSeq (fun l v => step_push_astack c l v K)).
+      rewrite fold_snoc. reflexivity.
+    + (* LinkedListStack *)
+      unfold init, add_values. rewrite K.
+      rewrite (run_app_ops c Push (fun a v => v :: a) StSeq (fun l v => step_push_lstack c l v K)).
+      rewrite fold_cons_rev, rev_involutive, app_nil_r, sll_add_nil. reflexivity.
+    + (* BinaryHeap *)
+      unfold init. rewrite K. unfold run_from. cbn [fold_left]. unfold step. rewrite K. cbn [fst].
+      unfold Heap.push. destruct vs as [|v [|w vs]]; reflexivity.
+    + (* ArrayQueue *)
+      unfold init. rewrite K.
+      rewrite (run_app_ops c Enqueue (fun a v => a ++ [v]) StSeq (fun l v => step_enq_aq c l v K)).
+      rewrite fold_snoc. reflexivity.
+    + (* LinkedListQueue *)
+      unfold init, add_values. rewrite K.
+      rewrite (run_app_ops c Enqueue (fun a v => a ++ [v]) StSeq (fun l v => step_enq_lq c l v K)).
+      rewrite fold_snoc, sll_add_nil. reflexivity.
+    + (* CircularBuffer *)
+      destruct Hc as [_ Hr]. specialize (Hr K).
+      assert (H05 : c05_config c) by (apply C05Proofs.ring_config; assumption).
+      rewrite (C05Proofs.init_ring c K H05).
+      generalize (Ring.rinit (cap_of c)). induction vs as [|v vs IH]; intros r; [reflexivity|].
+      cbn [map ring_enqs]. rewrite run_from_cons, (step_enq_ring c r v K). apply IH.
+    + (* PriorityQueue *)
+      unfold init. rewrite K.
+      rewrite (run_app_ops c Enqueue (fun h v => Heap.push (kc c) [v] h) StHeap (fun l v => step_enq_pq c l v K)).
+      rewrite (pushes_in_order (kc c) _ []); [reflexivity|].
+      cbn [app]. apply HP.heapify_ok. apply MM.kc_SWO.
+Qed.
+
+Lemma accepts_of_ok : forall c d s, s <> StCrash -> snd (from_json c d s) = true -> accepts c d = true.
+Proof. intros c d s Hs H. rewrite <- (from_json_ok_iff c d s Hs). exact H. Qed.
+
+(* the loaded state, whatever the prior content, is the state of a fresh container after the one call *)
+Lemma loaded_is_run1 : forall c s d, config_ok c -> s <> StCrash -> snd (from_json c d s) = true ->
+  fst (from_json c d s) = run c [FromJSON d].
+Proof.
+  intros c s d Hc Hs H. pose proof (init_not_crash c Hc) as Hi.
+  rewrite (C12_replaces_proof c s d Hs H Hi).
+  unfold run, run_from. cbn [fold_left]. rewrite (step_from_json_gen c _ d Hi). reflexivity.
+Qed.
+
+Theorem C12_reachable_proof : forall c ops d, config_ok c ->
+  snd (from_json c d (run c ops)) = true ->
+  exists ops', (forall o, In o ops' -> is_from_json o = false) /\
+               fst (from_json c d (run c ops)) = run c ops'.
+Proof.
+  intros c ops d Hc H. pose proof (run_not_crash c ops Hc) as Hs.
+  exists (load_ops c d). split; [apply load_ops_no_from_json|].
+  rewrite (C12_replaces_proof c _ d Hs H (init_not_crash c Hc)).
+  apply load_is_run; [exact Hc|]. exact (accepts_of_ok c d _ Hs H).
+Qed.
+
+Lemma run_app : forall c ops1 ops2, run c (ops1 ++ ops2) = run_from c (run c ops1) ops2.
+Proof. intros c ops1 ops2. unfold run, run_from. apply fold_left_app. Qed.
+
+(* ... and so is every continuation: a history with a successful FromJSON in the middle reaches the
+   same state as the FromJSON-free history that starts with the inserts; a failing FromJSON can be
+   dropped from the history *)
+Theorem C12_continues_proof : forall c ops d more, config_ok c ->
+  run c (ops ++ FromJSON d :: more) =
+  if accepts c d then run c (load_ops c d ++ more) else run c (ops ++ more).
+Proof.
+  intros c ops d more Hc. pose proof (run_not_crash c ops Hc) as Hs.
+  rewrite !run_app, run_from_cons. rewrite (step_from_json_gen c _ d Hs). cbn [fst].
+  pose proof (from_json_ok_iff c d _ Hs) as Ho.
+  destruct (accepts c d) eqn:A.
+  - rewrite (C12_replaces_proof c _ d Hs Ho (init_not_crash c Hc)).
+    rewrite (load_is_run c d Hc A). reflexivity.
+  - rewrite (C12_atomic_proof c _ d Ho). reflexivity.
+Qed.
+
+(* the loaded state satisfies the invariant of the reachable states of its kind *)
+Theorem C12_sound_proof : forall c s d, config_ok c -> s <> StCrash -> snd (from_json c d s) = true ->
+  jinv c (fst (from_json c d s)).
+Proof. intros c s d Hc Hs H. rewrite (loaded_is_run1 c s d Hc Hs H). apply jinv_run. exact Hc. Qed.
+
+(* ---------- what the loaded content is ---------- *)
+(* lists, stacks, queues: the backing sequence IS the array; the array stack lists it top first *)
+Theorem C12_denotes_seq_proof : forall c s vs, seq_kind (ckind c) = true -> s <> StCrash ->
+  from_json c (DArr vs) s = (StSeq vs, true) /\ values_of c (StSeq vs) = abs_load c vs.
+Proof.
+  intros c s vs K Hs. rewrite (from_json_body_eq c _ s Hs). unfold from_json_body, load_array, add_values, init, abs_load, values_of.
+  destruct (ckind c); try discriminate K; cbn [is_kv]; rewrite ?sll_add_nil;
+    try (unfold dll_add; rewrite sll_add_nil); split; reflexivity.
+Qed.
+
+(* sets: the members are exactly the elements of the array, each once *)
+Theorem C12_denotes_set_proof : forall c s vs, SP.is_set_kind (ckind c) = true -> s <> StCrash ->
+  let s' := fst (from_json c (DArr vs) s) in
+  snd (from_json c (DArr vs) s) = true /\
+  (forall x, SP.member c s' x = eqvb (SP.set_cmp c) x vs) /\
+  NoDupA (SP.sequiv c) (values_of c s') /\
+  (forall x, InA (SP.sequiv c) x (values_of c s') <-> eqvb (SP.set_cmp c) x vs = true) /\
+  size_of c s' = Z.of_nat (length (values_of c s')) /\
+  (ckind c = HashSet -> StronglySorted Z.lt (values_of c s')) /\
+  (ckind c = TreeSet -> StronglySorted (fun a b => kc c a b = Lt) (values_of c s')) /\
+  (ckind c = LinkedHashSet -> values_of c s' = fold_left order_step (map EIns vs) []).
+Proof.
+  intros c s vs K Hs s'.
+  assert (Hc : config_ok c) by (split; intros F; rewrite F in K; discriminate K).
+  assert (Hok : snd (from_json c (DArr vs) s) = true).
+  { rewrite (from_json_ok_iff c _ s Hs). unfold accepts. destruct (ckind c); try discriminate K; reflexivity. }
+  split; [exact Hok|].
+  assert (Es : s' = run c [FromJSON (DArr vs)]) by (apply loaded_is_run1; assumption).
+  destruct (SP.set_run c [FromJSON (DArr vs)] K) as [I M]. rewrite <- Es in I, M.
+  assert (Hm : forall x, SP.member c s' x = eqvb (SP.set_cmp c) x vs).
+  { intros x. rewrite M. unfold set_hist, live. cbn [flat_map set_hist1 app rev live_from].
+    destruct (eqvb (SP.set_cmp c) x vs); reflexivity. }
+  split; [exact Hm|].
+  destruct (SP.values_spec c s' I) as (V1 & V2 & V3).
+  split; [exact V1|]. split; [intros x; rewrite V3, Hm; reflexivity|]. split; [exact V2|].
+  split; [|split].
+  - intros Kh. unfold SP.set_inv in I. rewrite Kh in I. destruct s'; try contradiction. exact I.
+  - intros Kt. rewrite Es. apply SP.C04_treeset_ascending_proof. exact Kt.
+  - intros Kl. assert (Kl' : LP.is_linked_kind (ckind c) = true) by (rewrite Kl; reflexivity).
+    destruct (LP.linked_run c [FromJSON (DArr vs)] Kl') as [Il O]. rewrite <- Es in Il, O.
+    unfold LP.linked_inv in Il. rewrite Kl in Il. destruct s'; try contradiction.
+    cbn [values_of LP.ord_of] in *. rewrite O. unfold events, order_spec. cbn [flat_map]. unfold events1. rewrite Kl.
+    rewrite app_nil_r. reflexivity.
+Qed.
+
+(* heap, priority queue: a valid heap holding exactly the elements of the array *)
+Theorem C12_denotes_heap_proof : forall c s vs, is_heap_kind (ckind c) = true -> s <> StCrash ->
+  exists l', from_json c (DArr vs) s = (StHeap l', true) /\ HP.heap_ok (kc c) l' /\ Permutation l' vs.
+Proof.
+  intros c s vs K Hs. rewrite (from_json_body_eq c _ s Hs). unfold from_json_body.
+  destruct (C06Proofs.C06_load_array_heap c vs K) as (l' & E & H1 & H2).
+  assert (Hkv : is_kv (ckind c) = false) by (destruct (ckind c); try discriminate K; reflexivity).
+  rewrite Hkv, E. exists l'. auto.
+Qed.
+
+(* circular buffer: the last capacity-many values of the array *)
+Theorem C12_denotes_ring_proof : forall c s vs, ckind c = CircularBuffer -> 1 <= ccap c -> s <> StCrash ->
+  exists r', from_json c (DArr vs) s = (StRing r', true) /\ RP.ring_inv r' /\ Ring.rmax r' = cap_of c /\
+             values_of c (StRing r') = lastn (cap_of c) vs.
+Proof.
+  intros c s vs K Hr Hs. rewrite (from_json_body_eq c _ s Hs). unfold from_json_body, load_array. rewrite K. cbn [is_kv].
+  assert (H05 : c05_config c) by (apply C05Proofs.ring_config; assumption).
+  rewrite (C05Proofs.init_ring c K H05), C05Proofs.ring_enqs_renqs.
+  pose proof (RP.rinit_inv (cap_of c) (C05Proofs.cap_pos c K H05)) as Hi0.
+  eexists. split; [reflexivity|]. split; [apply RP.renqs_inv; exact Hi0|].
+  split; [rewrite RP.renqs_max; reflexivity|].
+  cbn [values_of]. rewrite RP.renqs_abs by exact Hi0. rewrite RP.rinit_abs. reflexivity.
+Qed.
